@@ -135,7 +135,8 @@ theorem solo_fStatDir {n t s} (h : Solo n t s) (hp : s.pc t = .fStatDir) : Good 
     refine ⟨{ s with pc := upd s.pc t .zEnter }, {}, by simp [next, hp, ha, hd], ?_⟩
     simp [upd, Pc.onPath, rank, hp, hd, hz]
   | some d =>
-    refine ⟨{ s with pc := upd s.pc t .fStatMark }, {}, by simp [next, hp, ha, hd], ?_⟩
+    refine ⟨{ s with pc := upd s.pc t .fStatMark }, { hook := some "downloaddir.between-stats" },
+      by simp [next, hp, ha, hd], ?_⟩
     simp [upd, Pc.onPath, rank, hp, hd, hz]
 
 theorem solo_fStatMark {n t s} (h : Solo n t s) (hp : s.pc t = .fStatMark) : Good n t s := by
@@ -245,7 +246,8 @@ theorem solo_lStatDir {n t s} (h : Solo n t s) (hp : s.pc t = .lStatDir) : Good 
       by simp [next, hp, ha, hd], ?_⟩
     simp [upd, Pc.onPath, rank, hp] <;> omega
   | some d =>
-    refine ⟨{ s with pc := upd s.pc t .lStatMark }, {}, by simp [next, hp, ha, hd], ?_⟩
+    refine ⟨{ s with pc := upd s.pc t .lStatMark }, { hook := some "downloaddir.between-stats" },
+      by simp [next, hp, ha, hd], ?_⟩
     simp [upd, Pc.onPath, rank, hp] <;> omega
 
 theorem solo_lStatMark {n t s} (h : Solo n t s) (hp : s.pc t = .lStatMark) : Good n t s := by
